@@ -14,7 +14,7 @@ ASAN  := $(COMMON) -O1 -fsanitize=address -fno-omit-frame-pointer -DSIM_BUILD_NA
 TLS   := $(COMMON) -O1 -DRLBOX_EMBEDDER_PROVIDES_TLS_STATIC_VARIABLES -DSIM_BUILD_NAME='"tls"'
 LIBS := -lpthread -ldl
 
-TARGETS := apptoken mem callback callback.tls
+TARGETS := apptoken mem callback callback.tls invoke toctou toctou.asan
 
 all: $(addprefix $(B)/,$(TARGETS))
 
@@ -29,6 +29,14 @@ $(B)/callback: worlds/callback.cpp $(B)/guestlib.o $(GUESTSO) $(HDRS) $(SIMH) | 
 	$(CXX) $(PLAIN) $< $(B)/guestlib.o -o $@ $(LIBS)
 $(B)/callback.tls: worlds/callback.cpp $(B)/guestlib.o $(GUESTSO) $(HDRS) $(SIMH) | $(B)
 	$(CXX) $(TLS) $< $(B)/guestlib.o -o $@ $(LIBS)
+
+$(B)/invoke: worlds/invoke.cpp $(B)/guestlib.o $(GUESTSO) $(HDRS) $(SIMH) | $(B)
+	$(CXX) $(PLAIN) $< $(B)/guestlib.o -o $@ $(LIBS)
+
+$(B)/toctou: worlds/toctou.cpp $(HDRS) $(SIMH) | $(B)
+	$(CXX) $(PLAIN) $< -o $@ $(LIBS) -Wl,--wrap=malloc
+$(B)/toctou.asan: worlds/toctou.cpp $(HDRS) $(SIMH) | $(B)
+	$(CXX) $(ASAN) $< -o $@ $(LIBS) -Wl,--wrap=malloc
 
 $(B)/%: worlds/%.cpp $(HDRS) $(SIMH) | $(B)
 	$(CXX) $(PLAIN) $< -o $@ $(LIBS)
